@@ -6,7 +6,7 @@ from ..evidence import h
 
 LEVEL = 'exploration'
 RULE = ('random training lists over small alphabets (2-4 symbols incl. non-ASCII, so the generator can be enumerated), ngram 2-4, max_len 5-8, encodings utf-8 / latin-1 / '
-        'cp1251, single-length and length==ngram dominated lists; candidates = training passwords + every string the real MarkovCracker emits at any level + all strings '
+        'cp1251, single-length, length==ngram dominated and count-dominated lists (rare transitions taken several times: transition levels summing to > 10); candidates = training passwords + every string the real MarkovCracker emits at any level + all strings '
         'of length 1..max_len+1 over alphabet+1 foreign symbol (capped); for each candidate find_omen_level(trainer state) == OmenScorer.parse == level at which the '
         'generator emitted it (-1 if never) == reference level from the files; omen_pws_per_level.txt == tally of the trainer levels. '
         'non-trivial = candidate with level >= 0 reachable at a level holding >= 2 strings; distinct by hash(list, options)')
@@ -35,6 +35,18 @@ def gen_case(rng):
         else:
             pw = ''.join(rng.choice(alphabet) for _ in range(L))
         items.append([pw, rng.choice([1, 1, 2, 5])])
+    if len(alphabet) >= 2 and rng.random() < 0.3:
+        # dominated lists: one or two heavily repeated passwords make every other transition rare (level 3-9 each), and a few single "zig-zag" passwords
+        # take such a transition several times, so the transition levels alone add up to more than the single-transition maximum of 10
+        a, b = alphabet[0], alphabet[1]
+        L = rng.randint(min(max(ngram + 2, 5), max_len), max_len)
+        items = [[a * L, rng.choice([60, 120, 250])]]
+        if rng.random() < 0.5:
+            items.append([b * rng.randint(ngram, L), rng.choice([20, 50])])
+        for _ in range(rng.randint(1, 3)):
+            z = rng.choice([(a + b) * L, (a * (ngram - 1) + b) * L, (a + b + b) * L, ''.join(rng.choice(a + b) for _ in range(L))])[:rng.randint(ngram + 1, L)]
+            items.append([z, rng.choice([1, 1, 2])])
+        shape = 'dominated'
     if rng.random() < 0.3:
         items.append([alphabet[0] + 'Z' + alphabet[-1] * 2, 1])     # a character that may fall outside a tiny alphabet
     return {'items': items, 'encoding': enc, 'ngram': ngram, 'max_len': max_len, 'alphabet': rng.choice([100, 100, 2, 3]), 'coverage': 0.6,
